@@ -120,6 +120,8 @@ def impl_acy(case):
         return {"graph": "err:" + type(e).__name__ + ":" + str(e)[:80]}
     after = C.snapshot(G)
     out = {"graph": res, "mutated": before != after, "fresh": A is not G}
+    if case.get("inplace") is False:
+        return out
     try:
         G2 = build(case, lab)
         A2 = acyclification(G2, copy=False)
@@ -179,6 +181,10 @@ def enum_dir_bi(n):
         for bmask in range(1 << len(prs)):
             B = [[a, b] for i, (a, b) in enumerate(prs) if bmask >> i & 1]
             yield {"n": n, "D": D, "B": B}
+
+
+def has_cycle4(D):
+    return not C.is_acyclic(4, D)
 
 
 def queries(n, singleton_only=False, unordered=False):
@@ -243,8 +249,8 @@ def rand_blocks(rng, n):
     else:
         D.append([u, v])
         B.append([rng.choice(blocks[k1]), rng.choice(blocks[k2])])
-    pd = rng.choice((0.15, 0.3, 0.45))
-    pb = rng.choice((0.0, 0.1, 0.25))
+    pd = rng.choice((0.08, 0.15, 0.3, 0.45))
+    pb = rng.choice((0.0, 0.05, 0.1, 0.25))
     for a in range(len(blocks)):
         for b in range(a + 1, len(blocks)):
             for u in blocks[a]:
@@ -285,7 +291,7 @@ def rand_query(rng, n):
     kx, ky = rng.choice((1, 1, 1, 2)), rng.choice((1, 1, 2))
     X, Y = nodes[:kx], nodes[kx:kx + ky]
     rest = nodes[kx + ky:]
-    p = rng.choice((0.2, 0.4, 0.6))
+    p = rng.choice((0.2, 0.4, 0.6, 0.8))
     Z = [v for v in rest if rng.random() < p]
     return sorted(X), sorted(Y), sorted(Z)
 
@@ -315,22 +321,30 @@ def gen_cases(ctx):
                 yield {"kind": "sig", "g": g, "X": X, "Y": Y, "Z": Z, "src": "exh%d" % n}
     if tier == "thorough":
         k = 0
+        qs4 = list(queries(4, singleton_only=True, unordered=True))
+        j = 0
         for g in enum_dir_bi(4):
-            yield {"kind": "acy", "g": g, "src": "exh4"}
-            k += 1
-            nt, _ = shape(g)
-            if nt == 0:
+            j += 1
+            c = {"kind": "acy", "g": g, "src": "exh4"}
+            if j % 4:
+                c["inplace"] = False     # the copy=False variant is run on every 4th graph only
+            yield c
+            if not has_cycle4(g["D"]):
                 continue   # acyclic directed layer: sigma-separation = m-separation (C01)
-            # every 4th bidirected subset gets the full singleton query table, the others a seeded sample
-            qs = list(queries(4, singleton_only=True, unordered=True))
-            if k % 4 != 0:
-                qs = rng.sample(qs, 3)
-            for X, Y, Z in qs:
+            k += 1
+            # every 32nd cyclic graph gets the full singleton query table, every other one one seeded query
+            if k % 32 == 0:
+                sel = qs4
+            elif k % 2 == 0:
+                sel = [qs4[rng.randrange(len(qs4))]]
+            else:
+                sel = []
+            for X, Y, Z in sel:
                 yield {"kind": "sig", "g": g, "X": X, "Y": Y, "Z": Z, "src": "exh4"}
     else:
         # quick: a seeded sample of the 4-node table
         prs = C.all_pairs(4)
-        for i in range(1500):
+        for i in range(1200):
             D = []
             for a, b in prs:
                 s = rng.randrange(4)
@@ -344,7 +358,7 @@ def gen_cases(ctx):
             for X, Y, Z in rng.sample(list(queries(4)), 4):
                 yield {"kind": "sig", "g": g, "X": X, "Y": Y, "Z": Z, "src": "smp4"}
     # (ii) structured random: n = 5..7, >= 2 adjacent non-trivial SCCs; plus unstructured cyclic graphs
-    N = 2500 if tier == "quick" else 30000
+    N = 2000 if tier == "quick" else 20000
     for i in range(N):
         n = rng.choice((5, 5, 6, 6, 7))
         g = rand_blocks(rng, n) if i % 5 != 4 else rand_any(rng, n)
@@ -374,7 +388,7 @@ def verdict(case, got, exp):
             return "mutation", "acyclification(G, copy=True) changed its argument"
         if not got.get("fresh", True):
             return "mutation", "acyclification(G, copy=True) returned its argument"
-        if got.get("inplace") != spec:
+        if "inplace" in got and got["inplace"] != spec:
             return "edges-inplace", "acyclification(G, copy=False)=%s  characterisation=%s" % (got.get("inplace"), spec)
         return None
     dec = exp[0]
@@ -405,7 +419,7 @@ def run(ctx):
     ev.rule = ("corpus; exhaustive: every directed graph on 1-3 nodes (pair states none,->,<-,both) x every set of "
                "bidirected edges, acyclification compared per graph and sigma_separated for every disjoint (X,Y,Z); "
                "thorough: all 262144 graphs on 4 nodes for acyclification and, for the cyclic ones, singleton queries "
-               "(full table on every 4th graph, 3 sampled queries on the rest); quick: 1500 sampled 4-node graphs; "
+               "(full table on every 32nd graph, one sampled query on every other one; copy=False on every 4th graph); quick: 1200 sampled 4-node graphs; "
                "random: n in 5..7 built from blocks with >= 2 non-trivial SCCs two of which are adjacent through a "
                "directed or bidirected edge (4 of 5) or unstructured cyclic graphs (1 of 5), shuffled insertion order, "
                "five label families, bidirected layer absent when empty; copy=True non-mutation by snapshot, "
@@ -426,9 +440,13 @@ def run(ctx):
     ans = C.lean_batch(lines)
     gots = C.pmap(impl, cases, chunksize=128)
     bad, broken = [], []
+    shape_cache = {}
     for case, got, (o, k) in zip(cases, gots, idx):
         exp = ans[o:o + k]
-        nt, adj = shape(case["g"])
+        gid = id(case["g"])
+        if gid not in shape_cache:
+            shape_cache[gid] = shape(case["g"])
+        nt, adj = shape_cache[gid]
         if case["kind"] == "acy":
             nontriv = nt > 0
             ev.count("acy:ntSCC=%d%s" % (min(nt, 3), "+adj" if adj else ""))
